@@ -6,6 +6,9 @@ GS = "fairlearn/reductions/_grid_search/grid_search.py"
 CR = "fairlearn/preprocessing/_correlation_remover.py"
 LAG = "fairlearn/reductions/_exponentiated_gradient/_lagrangian.py"
 MOM = "fairlearn/reductions/_moments/moment.py"
+IT = "fairlearn/postprocessing/_interpolated_thresholder.py"
+PT = "fairlearn/adversarial/_pytorch_engine.py"
+TF = "fairlearn/adversarial/_tensorflow_engine.py"
 
 
 def R(id, f, what, *edits, **kw):
@@ -21,6 +24,21 @@ GUARD = "        if (not is_fitted) or (reinitialize):\n            self.__setup
 KEEP = "        if base.warm_start and hasattr(base, \"backendEngine_\"):\n"
 TRY = ("        try:  # TODO check this\n            check_is_fitted(self)\n            is_fitted = True\n"
        "        except NotFittedError:\n            is_fitted = False\n")
+
+IT_LOOP = ("        for a, interpolation in self.interpolation_dict.items():\n"
+           "            interpolated_predictions = interpolation.p0 * interpolation.operation0(\n"
+           "                base_predictions_vector\n"
+           "            ) + interpolation.p1 * interpolation.operation1(base_predictions_vector)\n"
+           "            if \"p_ignore\" in interpolation:\n"
+           "                interpolated_predictions = (\n"
+           "                    interpolation.p_ignore * interpolation.prediction_constant\n"
+           "                    + (1 - interpolation.p_ignore) * interpolated_predictions\n"
+           "                )\n")
+IT_BASE = "        base_predictions = np.array(\n            _get_soft_predictions(self.estimator_, X, self._predict_method)\n        )\n"
+PT_EVAL = "        self.predictor_model.eval()\n"
+TF_EVAL = "        Y_pred = self.predictor_model(X, training=False)\n"
+ADV_EVAL = "        y_pred = self.backendEngine_.evaluate(X)\n"
+TO_PMF = ("        return self.interpolated_thresholder_._pmf_predict(\n            X, sensitive_features=sensitive_features\n        )\n")
 
 CASES = [
     # ------------------------------------------------------------------ refactors
@@ -152,4 +170,103 @@ CASES = [
       ("        prefit: bool = False,\n        predict_method: Literal[\"auto\", \"predict_proba\", \"decision_function\", \"predict\"] = \"auto\",\n    ):\n",
        "        pre_fit: bool = False,\n        predict_method: Literal[\"auto\", \"predict_proba\", \"decision_function\", \"predict\"] = \"auto\",\n    ):\n"),
       ("        self.prefit = prefit\n", "        self.prefit = pre_fit\n")),
+    # ------------------------------------------------------------------ prediction closure ACROSS the helper objects
+    # (harness/lifters/lifecycle_helpers.py: InterpolatedThresholder.predict/_pmf_predict, <engine>.evaluate, the call sites)
+    R("r-it-rename-loopvar", IT, "InterpolatedThresholder._pmf_predict: rename the loop variable `interpolation`",
+      (IT_LOOP, IT_LOOP.replace("interpolation.", "entry.").replace("a, interpolation in", "a, entry in").replace("in interpolation:", "in entry:"))),
+    R("r-it-predict-temp", IT, "InterpolatedThresholder.predict: temporary for the pmf before slicing",
+      ("        positive_probs = self._pmf_predict(X, sensitive_features=sensitive_features)[:, 1]\n",
+       "        pmf = self._pmf_predict(X, sensitive_features=sensitive_features)\n        positive_probs = pmf[:, 1]\n")),
+    R("r-pt-eval-alias", PT, "PytorchEngine.evaluate: local alias for the predictor network (mode call and forward pass through it)",
+      (PT_EVAL, "        model = self.predictor_model\n        model.eval()\n"),
+      ("        with torch.no_grad():\n            Y_pred = self.predictor_model(X)\n",
+       "        with torch.no_grad():\n            Y_pred = model(X)\n")),
+    R("r-pt-eval-train-false", PT, "PytorchEngine.evaluate: `.eval()` spelled `.train(False)`",
+      (PT_EVAL, "        self.predictor_model.train(False)\n")),
+    R("r-pt-eval-reorder", PT, "PytorchEngine.evaluate: the tensor conversion moved before the (independent) mode call",
+      (PT_EVAL + "        X = torch.from_numpy(X).float()\n        if self.cuda:\n            X = X.to(self.device)\n        with torch.no_grad():\n",
+       "        X = torch.from_numpy(X).float()\n        if self.cuda:\n            X = X.to(self.device)\n" + PT_EVAL + "        with torch.no_grad():\n")),
+    R("r-adv-engine-alias", ADV, "_AdversarialFairness._raw_predict: local alias for the engine",
+      (ADV_EVAL, "        engine = self.backendEngine_\n        y_pred = engine.evaluate(X)\n")),
+    R("r-to-predict-temp", TO, "ThresholdOptimizer._pmf_predict: temporary for the delegated result",
+      (TO_PMF, "        pmf = self.interpolated_thresholder_._pmf_predict(\n            X, sensitive_features=sensitive_features\n        )\n        return pmf\n")),
+    R("r-tf-eval-logging", TF, "TensorflowEngine.evaluate: logger.debug before the forward pass",
+      (TF_EVAL, "        logger.debug(\"forward pass\")\n" + TF_EVAL)),
+    S("s-it-call-counter", IT, "InterpolatedThresholder._pmf_predict counts its calls on the helper object",
+      (IT_BASE, "        self.n_pmf_calls_ = getattr(self, \"n_pmf_calls_\", 0) + 1\n" + IT_BASE)),
+    S("s-it-mutates-entry", IT, "_pmf_predict normalises every interpolation entry IN PLACE (through the loop variable)",
+      (IT_LOOP, IT_LOOP.replace("            if \"p_ignore\" in interpolation:\n",
+                                "            interpolation.setdefault(\"p_ignore\", 0.0)\n            interpolation.setdefault(\"prediction_constant\", 0.0)\n"
+                                "            if \"p_ignore\" in interpolation:\n"))),
+    S("s-it-store-entry", IT, "_pmf_predict stores into an interpolation entry (`interpolation.p0 = float(..)`)",
+      (IT_LOOP, IT_LOOP.replace("            if \"p_ignore\" in interpolation:\n",
+                                "            interpolation.p0 = float(interpolation.p0)\n            if \"p_ignore\" in interpolation:\n"))),
+    S("s-it-predict-cache", IT, "InterpolatedThresholder.predict caches the last probabilities on the helper object",
+      ("        return (positive_probs >= random_state.rand(len(positive_probs))) * 1\n",
+       "        self._last_positive_probs = positive_probs\n        return (positive_probs >= random_state.rand(len(positive_probs))) * 1\n")),
+    S("s-it-rebinds-dict", IT, "_pmf_predict rebinds interpolation_dict (a copy)",
+      (IT_BASE, "        self.interpolation_dict = dict(self.interpolation_dict)\n" + IT_BASE)),
+    S("s-pt-eval-dropped", PT, "PytorchEngine.evaluate no longer selects eval mode (forward pass in whatever mode fit left)",
+      (PT_EVAL, "")),
+    S("s-pt-eval-train", PT, "PytorchEngine.evaluate selects TRAIN mode", (PT_EVAL, "        self.predictor_model.train()\n")),
+    S("s-pt-eval-after-forward", PT, "PytorchEngine.evaluate selects eval mode only AFTER the forward pass",
+      (PT_EVAL, ""),
+      ("        with torch.no_grad():\n            Y_pred = self.predictor_model(X)\n",
+       "        with torch.no_grad():\n            Y_pred = self.predictor_model(X)\n        self.predictor_model.eval()\n")),
+    S("s-pt-eval-conditional", PT, "PytorchEngine.evaluate selects eval mode on one path only",
+      (PT_EVAL, "        if X.shape[0] > 1:\n            self.predictor_model.eval()\n")),
+    S("s-pt-eval-clamps-weights", PT, "PytorchEngine.evaluate clips the weights in place (alias loop over parameters())",
+      (PT_EVAL, PT_EVAL + "        for p in self.predictor_model.parameters():\n            p.data.clamp_(-0.25, 0.25)\n")),
+    S("s-pt-eval-zero-grad", PT, "PytorchEngine.evaluate calls the optimiser's zero_grad",
+      (PT_EVAL, PT_EVAL + "        self.predictor_optimizer.zero_grad()\n")),
+    S("s-pt-eval-writes-base", PT, "PytorchEngine.evaluate counts predictions on the estimator (`self.base.n_eval_ = ..`)",
+      (PT_EVAL, PT_EVAL + "        self.base.n_eval_ = getattr(self.base, \"n_eval_\", 0) + 1\n")),
+    S("s-pt-eval-unknown-method", PT, "PytorchEngine.evaluate calls a method of unknown effect on the network",
+      (PT_EVAL, PT_EVAL + "        self.predictor_model.fuse_layers()\n"), expect="refused"),
+    S("s-tf-eval-training-true", TF, "TensorflowEngine.evaluate runs the network with training=True",
+      (TF_EVAL, "        Y_pred = self.predictor_model(X, training=True)\n")),
+    S("s-tf-eval-training-default", TF, "TensorflowEngine.evaluate no longer passes training=False",
+      (TF_EVAL, "        Y_pred = self.predictor_model(X)\n")),
+    S("s-adv-engine-getattr", ADV, "_raw_predict reaches the engine method through getattr",
+      (ADV_EVAL, "        y_pred = getattr(self.backendEngine_, \"evaluate\")(X)\n"), expect="refused"),
+    S("s-adv-engine-attr-call", ADV, "_raw_predict calls a method on an ATTRIBUTE of the engine",
+      (ADV_EVAL, "        self.backendEngine_.predictor_model.train()\n" + ADV_EVAL), expect="refused"),
+    S("s-adv-engine-passed-on", ADV, "_raw_predict hands the engine to a function",
+      (ADV_EVAL, "        y_pred = _run_engine(self.backendEngine_, X)\n"), expect="refused"),
+    S("s-adv-engine-unknown-method", ADV, "_raw_predict calls a method the engine classes do not define",
+      (ADV_EVAL, "        y_pred = self.backendEngine_.evaluate_batched(X)\n"), expect="refused"),
+    S("s-to-helper-dict-clear", TO, "ThresholdOptimizer._pmf_predict mutates the helper's interpolation_dict directly",
+      (TO_PMF, "        self.interpolated_thresholder_.interpolation_dict.pop(None, None)\n" + TO_PMF), expect="refused"),
+    S("s-adv-validate-reset", ADV, "_raw_predict: validate_data(.., reset=True)", ("            reset=False,\n", "            reset=True,\n")),
+    S("s-cr-validate-noreset", CR, "CorrelationRemover.transform passes reset=False (repair of F5g)",
+      ("        X = validate_data(self, X)\n        if self._n_features_in_ != X.shape[1]:\n",
+       "        X = validate_data(self, X, reset=False)\n        if self._n_features_in_ != X.shape[1]:\n")),
+    # ------------------------------------------------------------------ predictOtherCalls (what is NOT followed during prediction)
+    R("r-adv-predict-fn-temp", ADV, "_AdversarialFairness.predict: temporary for the predictor function (the call is then on a local: "
+      "the generated list loses `predictor_function_()`, every theorem survives)",
+      ("        y_pred = self.predictor_function_(y_pred)\n", "        decide = self.predictor_function_\n        y_pred = decide(y_pred)\n"),
+      expect="refused",
+      why="refused by adv_schedule.py (C17), which pins the statement shapes of predict; lifecycle.py itself emits the shorter "
+          "predictOtherCalls list (class b: src_predict_other_calls_trusted / src_predict_pure_flags are subset statements)"),
+    R("r-gs-predict-logging", GS, "GridSearch.predict: logger.debug before the delegation",
+      ("        return self.predictors_[self.best_idx_].predict(X)\n",
+       "        logger.debug(\"delegating\")\n        return self.predictors_[self.best_idx_].predict(X)\n")),
+    R("r-adv-predict-rename", ADV, "_AdversarialFairness.predict: rename the local y_pred",
+      ("        y_pred = self._raw_predict(X)\n        y_pred = self.predictor_function_(y_pred)\n        y_pred = self._y_transform.inverse_transform(y_pred)\n        return y_pred\n",
+       "        out = self._raw_predict(X)\n        out = self.predictor_function_(out)\n        out = self._y_transform.inverse_transform(out)\n        return out\n")),
+    R("r-adv-predict-compose", ADV, "_AdversarialFairness.predict: the three steps composed in one expression",
+      ("        y_pred = self._raw_predict(X)\n        y_pred = self.predictor_function_(y_pred)\n        y_pred = self._y_transform.inverse_transform(y_pred)\n        return y_pred\n",
+       "        return self._y_transform.inverse_transform(self.predictor_function_(self._raw_predict(X)))\n")),
+    S("s-gs-predict-refits", GS, "GridSearch.predict refits the selected predictor",
+      ("        return self.predictors_[self.best_idx_].predict(X)\n",
+       "        self.predictors_[self.best_idx_].fit(X, self.predictors_[self.best_idx_].predict(X))\n        return self.predictors_[self.best_idx_].predict(X)\n")),
+    S("s-gs-predict-pops", GS, "GridSearch.predict_proba drops a predictor from the fitted list",
+      ("        return self.predictors_[self.best_idx_].predict_proba(X)\n",
+       "        self.predictors_.pop()\n        return self.predictors_[self.best_idx_].predict_proba(X)\n")),
+    S("s-adv-predict-refits-transform", ADV, "_AdversarialFairness.predict refits the label transformer on the predictions",
+      ("        y_pred = self._y_transform.inverse_transform(y_pred)\n        return y_pred\n",
+       "        self._y_transform.fit(y_pred)\n        y_pred = self._y_transform.inverse_transform(y_pred)\n        return y_pred\n")),
+    S("s-adv-predict-callbacks", ADV, "_AdversarialFairness.predict runs the user callbacks",
+      ("        y_pred = self._y_transform.inverse_transform(y_pred)\n        return y_pred\n",
+       "        y_pred = self._y_transform.inverse_transform(y_pred)\n        self.callbacks_[0](y_pred)\n        return y_pred\n")),
 ]
